@@ -64,11 +64,23 @@ Theorem C16_mdhd_duration_wraps_refuted : forall ts dur lang, 4294967296 <= dur 
 Proof. exact mdhd_duration_wraps. Qed.
 Print Assumptions C16_mdhd_duration_wraps_refuted.
 
+(* unreachable through the API since commit 3b9bdbd: finish rejects such a configuration (next theorem) *)
 Theorem C16_parameter_set_length_wraps_refuted : forall c, 65536 <= len (avc_sps c) ->
   rd16 (skipn 14 (build_avcc_box c)) = Some (len (avc_sps c) mod 65536, skipn 16 (build_avcc_box c)) /\
   len (avc_sps c) mod 65536 <> len (avc_sps c).
 Proof. exact avcc_sps_length_wraps. Qed.
 Print Assumptions C16_parameter_set_length_wraps_refuted.
+
+Theorem C16_oversized_parameter_sets_are_rejected : forall w v m fs,
+  w_finalized w = false ->
+  match w_vconfig w with
+  | Some (CfgAvc a) => 65535 < len (avc_sps a) \/ 65535 < len (avc_pps a)
+  | Some (CfgHevc h) => 65535 < len (hevc_vps h) \/ 65535 < len (hevc_sps h) \/ 65535 < len (hevc_pps h)
+  | _ => False
+  end ->
+  finalize w v m fs = (w, FinErr (FinIo IoInvalidInput)).
+Proof. exact oversized_parameter_sets_are_rejected. Qed.
+Print Assumptions C16_oversized_parameter_sets_are_rejected.
 
 Theorem C16_audio_rate_field_wraps_refuted : forall ch rate rest, 65536 <= rate ->
   rd16 (skipn 24 (audio_entry_prefix ch rate ++ rest)) = Some (rate mod 65536, skipn 26 (audio_entry_prefix ch rate ++ rest)).
